@@ -12,6 +12,8 @@ C20 — Query- and source-restricted inference is local and agrees with full inf
 import LnnVerif.Props.C01
 import LnnVerif.Props.C05
 import LnnVerif.Props.C07
+import LnnVerif.Lemmas.FolSound
+import LnnVerif.Lemmas.PendLemmas
 
 namespace LNN
 
@@ -123,5 +125,126 @@ example : SubgraphClosed c20KB c20D := by
   rcases hi with rfl | rfl | rfl <;> simp [c20KB, c20D]
 
 example : ¬ c20D 4 ∧ ¬ c20D 2 := by simp [c20D]
+
+/-! ### first-order knowledge bases: restricted inference is local
+
+`infer(source=f)` / `infer_query()` call only `f` and its sub-formulae (the correspondence check
+compares the observed calls). Whatever those calls are, in whatever order and number: no table of
+a formula outside the sub-graph changes — no bound, no row. This includes the grounding
+propagation layer and the early exit of a query. -/
+
+section fol
+
+variable {ι : Type} [DecidableEq ι] {α : Type} [Field α] [LinearOrder α] [IsStrictOrderedRing α]
+
+/-- `D` contains the operands of each of its formulae -/
+def FClosed (kb : FKB ι α) (D : ι → Prop) : Prop := ∀ i, D i → ∀ j ∈ (kb i).ops, D j
+
+def FCall.formula : FCall ι → ι
+  | .up i => i
+  | .down i _ => i
+
+theorem fUp_frame (kb : FKB ι α) (i : ι) (s : FState ι α) (k : ι) (hk : k ∉ i :: (kb i).ops) :
+    (fUp kb i s).1.get k = s.get k := by
+  have hki : k ≠ i := fun e => hk (e ▸ List.mem_cons_self)
+  unfold fUp
+  split
+  · rfl
+  · exact FolSound.fUpNot_frame kb i s k hki
+  · exact FolSound.fUpQuant_frame kb i s k hki
+  · exact FolSound.fUpQuant_frame kb i s k hki
+  · exact FolSound.fUpConn_frame kb i s k hk
+
+theorem fDown_frame (kb : FKB ι α) (i : ι) (idx : Option Nat) (s : FState ι α) (k : ι)
+    (hk : k ∉ i :: (kb i).ops) : (fDown kb i idx s).1.get k = s.get k := by
+  have hko : k ∉ (kb i).ops := fun e => hk (List.mem_cons_of_mem _ e)
+  unfold fDown
+  split
+  · rfl
+  · exact FolSound.fDownNot_frame kb i s k hko
+  · exact FolSound.fDownQuant_frame kb i s k hk
+  · exact FolSound.fDownQuant_frame kb i s k hk
+  · exact FolSound.fDownConn_frame kb i s k idx hk
+
+theorem preDown_frame (kb : FKB ι α) (i : ι) (p : PState ι α) (k : ι) (hk : k ∉ (kb i).ops) :
+    (preDown kb i p).st.get k = p.st.get k := by
+  unfold preDown
+  split_ifs
+  · split
+    · split_ifs
+      · rfl
+      · obtain ⟨gs, e⟩ := propagateQ_get kb i p k
+        rw [e, if_neg]
+        intro h
+        apply hk
+        cases hops : (kb i).ops with
+        | nil => rw [hops] at h; simp at h
+        | cons a l => rw [hops] at h; simp at h; rw [h]; exact List.mem_cons_self
+    · rfl
+  · rfl
+
+/-- one call of a formula of the sub-graph leaves every table outside the sub-graph as it was -/
+theorem C20_fol_call_local (kb : FKB ι α) (D : ι → Prop) (hD : FClosed kb D) (c : FCall ι)
+    (hc : D c.formula) (p : PState ι α) (k : ι) (hk : ¬ D k) :
+    (runPCall kb c p).1.st.get k = p.st.get k := by
+  cases c with
+  | up i =>
+    have hki : k ∉ i :: (kb i).ops := by
+      intro h
+      rcases List.mem_cons.mp h with e | e
+      · exact hk (e ▸ hc)
+      · exact hk (hD i hc k e)
+    exact fUp_frame kb i p.st k hki
+  | down i idx =>
+    have hko : k ∉ (kb i).ops := fun e => hk (hD i hc k e)
+    have hki : k ∉ i :: (kb i).ops := by
+      intro h
+      rcases List.mem_cons.mp h with e | e
+      · exact hk (e ▸ hc)
+      · exact hko e
+    show (fDown kb i idx (preDown kb i p).st).1.get k = p.st.get k
+    rw [fDown_frame kb i idx _ k hki, preDown_frame kb i p k hko]
+
+/-- … hence so does every sequence of such calls -/
+theorem C20_fol_pass_local (kb : FKB ι α) (D : ι → Prop) (hD : FClosed kb D) (cs : List (FCall ι))
+    (hcs : ∀ c ∈ cs, D c.formula) (p : PState ι α) (k : ι) (hk : ¬ D k) :
+    (runPCalls kb cs p).1.st.get k = p.st.get k := by
+  induction cs generalizing p with
+  | nil => rfl
+  | cons c rest ih =>
+    simp only [runPCalls]
+    rw [ih (fun c' hc' => hcs c' (List.mem_cons_of_mem _ hc')) (runPCall kb c p).1,
+      C20_fol_call_local kb D hD c (hcs c List.mem_cons_self) p k hk]
+
+/-- … and the whole restricted `infer()`, with or without a query that stops it early -/
+theorem C20_fol_local (kb : FKB ι α) (D : ι → Prop) (hD : FClosed kb D) (nodes : List ι)
+    (up down : List (FCall ι)) (hu : ∀ c ∈ up, D c.formula) (hd : ∀ c ∈ down, D c.formula) (eps : α)
+    (query : Option ι) (fuel : Nat) (p : PState ι α) (k : ι) (hk : ¬ D k) :
+    (pInferQ kb nodes up down eps query fuel p).state.st.get k = p.st.get k := by
+  induction fuel generalizing p with
+  | zero => rfl
+  | succ n ih =>
+    simp only [pInferQ]
+    have hsweep : (runPCalls kb down (runPCalls kb up p).1).1.st.get k = p.st.get k := by
+      rw [C20_fol_pass_local kb D hD down hd _ k hk, C20_fol_pass_local kb D hD up hu p k hk]
+    split_ifs
+    · rfl
+    · exact hsweep
+    · simp only
+      rw [ih, hsweep]
+
+/-- non-vacuity: `And(P, Q)` (node 2) and `Or(Q, R)` (node 4) share `Q`; the sub-graph of node 2 -/
+def c20FKB : FKB Nat ℚ := fun i =>
+  match i with
+  | 2 => { kind := .and, ops := [0, 1], ws := [1, 1], bias := 1, alpha := 1, world := ⟨0, 1⟩, opmap := [[0], [0]] }
+  | 4 => { kind := .or, ops := [1, 3], ws := [1, 1], bias := 1, alpha := 1, world := ⟨0, 1⟩, opmap := [[0], [0]] }
+  | _ => { kind := .pred, bias := 1, alpha := 1, world := ⟨0, 1⟩ }
+
+example : FClosed c20FKB (fun i => i = 2 ∨ i = 0 ∨ i = 1) ∧ ¬ (4 = 2 ∨ 4 = 0 ∨ 4 = 1) := by
+  refine ⟨?_, by decide⟩
+  intro i hi
+  rcases hi with rfl | rfl | rfl <;> simp [c20FKB]
+
+end fol
 
 end LNN
